@@ -413,3 +413,15 @@ func TestC07Route(t *testing.T) {
 		Gen:  c07GenRoute, Exec: c07ExecRoute,
 	})
 }
+
+// C16Routes: "routes … use this same meaning": the C07Route cases judged for C16. Every route of the generated trees
+// carries matchers in the new and / or the deprecated spelling; the trees the dispatcher, the API and amtool build from
+// one loaded configuration (several trees from the same configuration object, as every process does) must keep exactly
+// the configured matchers on every node and select the routes the reference evaluation of those matchers selects.
+func TestC16Routes(t *testing.T) {
+	pbt.Run(t, pbt.Spec[c07Scenario]{
+		Property: "C16", Name: "C16Routes",
+		Rule: "the cases of C07Route judged for C16: " + c07RouteRule,
+		Gen:  c07GenRoute, Exec: c07ExecRoute,
+	})
+}
